@@ -23,7 +23,7 @@ def units(lines):
 
 
 DEFS = {"ssink", "ssinkc", "csink", "const", "never", "map", "mapto", "filter", "filteropt", "merge", "orelse", "snapshot", "snapshot1", "snapshotn", "snaplazy", "snapmapc", "gate",
-        "hold", "holdlazy", "once", "updates", "value", "mapc", "lift2", "liftn", "accum", "collect", "defer", "split", "switchs", "switchc", "switchlate", "switchlatec", "latelisten", "router", "route",
+        "hold", "holdlazy", "once", "updates", "value", "mapc", "lift2", "lift2d", "liftn", "accum", "collect", "defer", "split", "switchs", "switchc", "switchlate", "switchlatec", "latelisten", "router", "route",
         "mklazy", "sloop", "cloop", "sloopclose", "cloopclose", "lazy", "accumlazy", "collectlazy"}
 
 
@@ -98,7 +98,7 @@ def per_listener(script, out):
 
 def check(tier, seed):
     rng = random.Random(seed * 97 + 9)
-    n = 600 if tier == "quick" else 15000
+    n = 1200 if tier == "quick" else 15000
     prof = apigen.profile(n_defs=(5, 12), n_listen=(2, 5), samples=0.4, max_defer=1, unlisten=0.0, obs=0.0,
                           rerequest=0.3, weights=dict(defer=1.5, switchs=1.5, switchc=0.7, switchlate=1.5, switchlatec=1.5, latelisten=1.5, lift2=2, accum=1.5, hold=3, merge=5, once=1, sloop=0.5, cloop=0.5, router=0.5))
     # one or two sinks feeding selectors and candidate cells at different depths: every send switches and updates
